@@ -214,10 +214,10 @@ pub fn run(tier: Tier, seed: u64, rng: &mut SplitMix64, n_override: Option<u64>,
             _ => 32,
         };
         // maximal FAT12 / FAT16 volumes with chains through the topmost clusters; full FAT32 volumes
-        let kind = match (bits, r.below(20)) {
-            (12, 0..=2) => VolKind::Max,
-            (16, 0) => VolKind::Max,
-            (32, 0..=3) => VolKind::Full,
+        let kind = match (bits, r.below(60)) {
+            (12, 0..=5) => VolKind::Max,
+            (16, 0..=1) => VolKind::Max,
+            (32, 0..=8) => VolKind::Full,
             _ => VolKind::Normal,
         };
         one(hist_id("foreign", seed, i), seed, bits, kind, &mut r, sink, &mut fr);
